@@ -3,7 +3,9 @@
 
    parse_args   = Model/C11.v : config.ArgumentParser.parse_args (argparse.parse_known_args over the
                   option table regenerated from the source, Gen/C11_tables.v), default pass
-   scan_S       = Spec/C11.v  : the scanner the property describes
+   scan_S       = Spec/C11.v  : the scanner the property describes; scan4_S keeps one list per option (-D, -I, -isystem,
+                  -include), scan_S = flat4 scan4_S puts the -I directories before the -isystem directories (the order in
+                  which a compiler searches them); likewise lists4_of / lists_of for the parser
    safe         = Spec/C11safe.v : the domain of the proof; its conjuncts are refuted one by one below
    split_string / quote_join = Model/C11sh.v : shlex.split / shlex.join                              *)
 From Coq Require Import Ascii String Bool List.
@@ -96,8 +98,8 @@ Print Assumptions C11_no_abort.
    own.  So each finding class can only cost the options that come AFTER its first occurrence. *)
 Theorem C11_safe_prefix_kept : forall l1 l2 : list string,
   safe l1 = true -> ~ In "-i" l2 ->
-  exists rest, lists_of (parse_args l2) = Some rest /\
-               lists_of (parse_args (List.app l1 l2)) = Some (app3v (some3 (scan_S l1)) rest).
+  exists rest, lists4_of (parse_args l2) = Some rest /\
+               lists4_of (parse_args (List.app l1 l2)) = Some (app4v (some4 (scan4_S l1)) rest).
 Proof. exact safe_prefix_compose. Qed.
 Print Assumptions C11_safe_prefix_kept.
 
@@ -108,17 +110,18 @@ Theorem C11_unknown_neutral_any_tail : forall l1 e l2 : list string,
 Proof. exact neutral_any_tail. Qed.
 Print Assumptions C11_unknown_neutral_any_tail.
 
-(* order: the scanner is a homomorphism at every point where no flag awaits its value (all argv) ... *)
+(* order: per option (-D, -I, -isystem, -include) the scanner is a homomorphism at every point where no flag awaits
+   its value (all argv): each of the four lists is in command-line order ... *)
 Theorem C11_order_S : forall l1 l2 : list string,
-  complete l1 = true -> scan_S (l1 ++ l2) = app3 (scan_S l1) (scan_S l2).
+  complete l1 = true -> scan4_S (l1 ++ l2) = app4 (scan4_S l1) (scan4_S l2).
 Proof. exact scan_app. Qed.
 Print Assumptions C11_order_S.
 
 (* ... and so is the parser.  PARTIAL: within [safe]. *)
 Theorem C11_order_partial : forall l1 l2 : list string,
   closed l1 = true -> safe (l1 ++ l2) = true ->
-  exists a1 a2, lists_of (parse_args l1) = Some a1 /\ lists_of (parse_args l2) = Some a2 /\
-                lists_of (parse_args (l1 ++ l2)) = Some (app3v a1 a2).
+  exists a1 a2, lists4_of (parse_args l1) = Some a1 /\ lists4_of (parse_args l2) = Some a2 /\
+                lists4_of (parse_args (l1 ++ l2)) = Some (app4v a1 a2).
 Proof. exact parse_order. Qed.
 Print Assumptions C11_order_partial.
 
@@ -154,8 +157,8 @@ Print Assumptions C11_shlex_any_rendering.
 (* non-vacuity: a safe vector with both spellings of all four options, values with '=', quotes and blanks,
    and a dozen catalogue options around them; an insertion point; the command string form *)
 Definition C11_example : list string :=
-  ["-O2"; "-g3"; "-DX"; "-D"; "FOO=""a b"""; "-ccbin"; "g++"; "-Iinc"; "-I"; "../x y"; "-MF"; "x.d";
-   "-isystem"; "/opt/sys"; "-std=c++17"; "-include"; "pre fix.h"; "-Wl,-rpath=/x"; "-fopenmp=libomp";
+  ["-O2"; "-g3"; "-DX"; "-D"; "FOO=""a b"""; "-ccbin"; "g++"; "-isystem"; "/opt/sys"; "-Iinc"; "-I"; "../x y"; "-MF"; "x.d";
+   "-std=c++17"; "-include"; "pre fix.h"; "-Wl,-rpath=/x"; "-fopenmp=libomp";
    "-c"; "a.c"; "-o"; "a.o"; "-O"; "-Xlinker"; "--no-undefined"].
 (* gcc -DMSG=\"a b\" "-I../x y" '-include' pre\ fix.h   (CMake / bear style quoting) *)
 Definition C11_example_rendering : list (list seg * word) :=
